@@ -161,13 +161,14 @@ def canon_result(x):
         if isinstance(x, xr.Dataset):
             return {str(n): canon(x[n].values) for n in x.data_vars}
         if isinstance(x, xr.DataArray):
-            return canon(x.values)
+            return {str(x.name): canon(x.values)} if x.name is not None else canon(x.values)
     except ImportError:
         pass
     if isinstance(x, (tuple, list)):
         return [canon_result(v) for v in x]
     if isinstance(x, dict):
-        return {str(k): canon_result(v) for k, v in x.items()}
+        def is_pair(v): return isinstance(v, tuple) and len(v) == 2 and isinstance(v[0], tuple) and all(isinstance(d, str) for d in v[0])
+        return {str(k): (canon(np.asarray(v[1])) if is_pair(v) else canon_result(v)) for k, v in x.items()}
     return canon(x)
 
 
